@@ -532,6 +532,7 @@ type c20Result struct {
 	expSend  bool
 	lookups  int
 	others   int
+	warmRuns int
 }
 
 type c20Found struct {
@@ -587,7 +588,27 @@ func c20Channel(ownerIdx, connIdx int) string {
 	return fmt.Sprintf("channel-%d", 10*ownerIdx+connIdx+1)
 }
 
+// eval evaluates case idx on a fresh keeper and, additionally, on keepers that
+// have already served one earlier successful SubmitTx (by another owner / by
+// the same owner) on the same connection: the keeper object is shared between
+// the two calls, so state kept in the keeper between calls is exercised.
 func (d *c20Dims) eval(idx int) (res c20Result) {
+	res = d.evalWarm(idx, 0)
+	for warm := 1; warm <= 2; warm++ {
+		r := d.evalWarm(idx, warm)
+		for _, f := range r.findings {
+			f.kind += "/after-an-earlier-call-on-the-same-keeper"
+			res.findings = append(res.findings, f)
+		}
+		res.warmRuns++
+		if r.panicked {
+			res.panicked = true
+		}
+	}
+	return res
+}
+
+func (d *c20Dims) evalWarm(idx, warm int) (res c20Result) {
 	si, oi, ci, ti, dl, sf, cp, ev := d.decode(idx)
 	owner, conn, shape, bt := d.owners[oi], d.conns[ci], d.shapes[si], d.times[ti]
 	other := d.owners[(oi+1)%len(d.owners)]
@@ -669,6 +690,29 @@ func (d *c20Dims) eval(idx int) (res c20Result) {
 	// --- call the real handler -------------------------------------------
 	ctx := sdk.NewContext(nil, tmproto.Header{Time: bt.T, Height: 1}, false, log.NewNopLogger())
 	k := intertxkeeper.NewKeeper(cdc, c20ICA{env}, c20Cap{env})
+	if warm != 0 {
+		// an earlier call on the same keeper, in an environment where it succeeds
+		saveActive, saveCaps, saveErr := env.active, env.caps, env.sendErr
+		env.active, env.caps, env.sendErr = map[string]string{}, map[string]*capabilitytypes.Capability{}, nil
+		for xo := range d.owners {
+			for xc := range d.conns {
+				port := c20Port(d.owners[xo].Str)
+				env.active[c20Key(port, d.conns[xc])] = c20Channel(xo, xc)
+				env.caps[c20CapName(port, c20Channel(xo, xc))] = &capabilitytypes.Capability{Index: uint64(5000 + 10*xo + xc)}
+			}
+		}
+		earlier := other
+		if warm == 2 {
+			earlier = owner
+		}
+		wmsg := &intertxtypes.MsgSubmitTx{Owner: earlier.Str, ConnectionId: conn, Msg: c20MustAny(shape.Build(earlier.Str, owner.Str))}
+		func() {
+			defer func() { _ = recover() }()
+			_, _ = k.SubmitTx(sdk.WrapSDKContext(ctx), wmsg)
+		}()
+		env.active, env.caps, env.sendErr = saveActive, saveCaps, saveErr
+		env.activeLookups, env.capLookups, env.sends, env.otherCalls = nil, nil, nil, nil
+	}
 	var resp *intertxtypes.MsgSubmitTxResponse
 	var herr error
 	func() {
